@@ -22,26 +22,50 @@ func (d Dict) render(f *File, w io.Writer, s *Statement) error {
 	first := true
 	// must order keys to ensure repeatable source
 	type kv struct {
-		k Code
-		v Code
+		k    Code
+		v    Code
+		key  string // rendered key: pairs are ordered by this
+		rest string // orders pairs whose keys render identically
 	}
-	lookup := map[string]kv{}
-	keys := []string{}
+	// pairs are kept in a slice (not indexed by the rendered key), so that two keys that render
+	// identically do not replace each other
+	keys := []kv{}
 	for k, v := range d {
 		if k.isNull(f) || v.isNull(f) {
 			continue
 		}
+		// This loop runs in map iteration order, so it must not register imports: the text used
+		// for ordering is rendered with a scratch copy of the file.
+		scratch := f.scratch()
 		buf := &bytes.Buffer{}
-		if err := k.render(f, buf, nil); err != nil {
+		if err := k.render(scratch, buf, nil); err != nil {
 			return err
 		}
-		keys = append(keys, buf.String())
-		lookup[buf.String()] = kv{k: k, v: v}
+		key := buf.String()
+		if err := v.render(scratch, buf, nil); err != nil {
+			return err
+		}
+		keys = append(keys, kv{k: k, v: v, key: key, rest: buf.String() + scratch.added(f)})
 	}
-	sort.Strings(keys)
-	for _, key := range keys {
-		k := lookup[key].k
-		v := lookup[key].v
+	sort.Slice(keys, func(i, j int) bool {
+		if keys[i].key != keys[j].key {
+			return keys[i].key < keys[j].key
+		}
+		return keys[i].rest < keys[j].rest
+	})
+	// Register the imports used by the keys in that fixed order, then order the pairs by the text
+	// their keys finally render as.
+	for i, pair := range keys {
+		buf := &bytes.Buffer{}
+		if err := pair.k.render(f, buf, nil); err != nil {
+			return err
+		}
+		keys[i].key = buf.String()
+	}
+	sort.SliceStable(keys, func(i, j int) bool { return keys[i].key < keys[j].key })
+	for _, pair := range keys {
+		k := pair.k
+		v := pair.v
 		if first && len(keys) > 1 {
 			if _, err := w.Write([]byte("\n")); err != nil {
 				return err
